@@ -743,6 +743,9 @@ class Path(parent.Geometry):
         cache = {}
         # try to copy the cache over to the new object
         try:
+            # dump anything computed before an in-place
+            # change of our vertices or entities
+            self._cache.verify()
             # save dict keys before doing slow iteration
             keys = list(self._cache.cache.keys())
             # run through each key and copy into new cache
